@@ -32,6 +32,7 @@ TokByte(b)        == <<"b", b>>
 TokStart          == <<"start">>
 TokEsc4           == <<"esc4">>
 TokEnd(pad, mode) == <<"end", pad, mode>>   \* mode: "cur" | "last" | "first" | "bad"
+TokCrc            == <<"crc">>            \* two checksum bytes alone: whatever would make the decoder's next comparison succeed
 TokFrame(p)       == <<"frame", p>>       \* Canonical(p), the definition
 TokEncFrame(p, w) == <<"enc", p, w>>      \* output of encoder w: "iter" | "buf"
 TokFin            == <<"fin">>
@@ -53,8 +54,18 @@ EndCrc(pad, mode) ==
        [] mode = "bad" -> (Crc16(Drop(stream, from) \o tail) + 1) % 65536
        [] OTHER -> Crc16(Drop(stream, from) \o tail)
 
+\* the two bytes an adversary sends when the decoder is about to compare a checksum - in whatever way it got there
+\* (a regular end sequence, an end marker behind a re-aligned or damaged escape sequence, ...); in every other
+\* situation: the checksum of everything since the last start sequence
+RawCrc ==
+  LET from == IF starts = <<>> THEN 0 ELSE starts[Len(starts)]
+  IN IF dec.st = "escpayload" /\ dec.step = 2
+     THEN CrcFin(CrcFeed(dec.crc, <<dec.pl[1], dec.pl[2]>>))
+     ELSE Crc16(Drop(stream, from))
+
 BytesOf(t) ==
   CASE t[1] = "b"     -> <<t[2]>>
+    [] t[1] = "crc"   -> LET c == RawCrc IN <<c % 256, c \div 256>>
     [] t[1] = "start" -> StartSeq
     [] t[1] = "esc4"  -> EscSeq
     [] t[1] = "end"   -> LET c == EndCrc(t[2], t[3])
@@ -113,7 +124,7 @@ Apply(t) ==
 FeedByte   == \E t \in Tokens : t[1] = "b"     /\ Apply(t)
 FeedStart  == \E t \in Tokens : t[1] = "start" /\ Apply(t)
 FeedEsc4   == \E t \in Tokens : t[1] = "esc4"  /\ Apply(t)
-FeedEnd    == \E t \in Tokens : t[1] = "end"   /\ Apply(t)
+FeedEnd    == \E t \in Tokens : t[1] \in {"end", "crc"} /\ Apply(t)
 FeedFrame  == \E t \in Tokens : t[1] \in {"frame", "enc"} /\ Apply(t)
 CallFin    == \E t \in Tokens : t[1] = "fin"   /\ Apply(t)
 CallRst    == \E t \in Tokens : t[1] = "rst"   /\ Apply(t)
@@ -135,6 +146,11 @@ TypeOK == DecTypeOK(dec) /\ dec.cap \in Caps
 \* C02: a payload is reported only when the stream ends with its canonical frame
 Sound ==
   \A e \in Outs : e[2].k = "ok" => IsSuffixOf(Canonical(e[2].m), Take(stream, e[1]))
+
+\* anti-vacuity control for the bare checksum token (must be VIOLATED): the token does complete transmissions,
+\* also behind a re-aligned escape sequence (payload ending in 1-3 x 0x1b), so Sound is exercised on those paths
+CrcTokenNeverAccepted ==
+  ~(ctx.tok[1] = "crc" /\ \E e \in Outs : e[2].k = "ok" /\ Len(e[2].m) > 0 /\ Last(e[2].m) = 27)
 
 \* C17: events tile the stream
 Tiles == tiled
